@@ -5,8 +5,9 @@ C13 — array size arithmetic of both code generators and of the runtime.
                    `emit_new_array` (codegen.rs): `lea dest,[len*es + 16 (+7)]` or `imul`/`add`, then `and -8`
                    — 64-bit wrapping arithmetic, with header.
 * `cannonGuard`  : the range check in front of it (`emit_new_array`): unsigned `len > maxLen es` ⇒ overflow trap.
-* `bootsOutcome` : `emit_new_array` of pkgs/boots/bytecode_graph_builder.dora: CheckedMul, CheckedAdd 16,
-                   (CheckedAdd 7, And ~7) — signed overflow traps, NO sign check on the length.
+* `bootsOutcome` : `emit_new_array` of pkgs/boots/bytecode_graph_builder.dora: CheckedAdd(len, Int64::MIN) (sign
+                   check: overflows exactly for len < 0; `signCheck = false` is the code before the fix),
+                   CheckedMul, CheckedAdd 16, (CheckedAdd 7, And ~7) — signed overflow traps.
 * `runtimeSize`  : `determine_array_size` of dora-runtime/src/mirror.rs (what the collectors use to walk the heap).
 -/
 namespace Dora.Alloc
@@ -41,7 +42,8 @@ inductive BootsResult
 def inI64 (x : Int) : Bool := decide (-(2 ^ 63 : Int) ≤ x) && decide (x < (2 ^ 63 : Int))
 
 /-- optimizing generator: checked signed arithmetic on the length as an Int64 -/
-def bootsOutcome (len : Int) (es : Nat) : BootsResult :=
+def bootsOutcome (signCheck : Bool) (len : Int) (es : Nat) : BootsResult :=
+  if signCheck && !inI64 (len + (-(2 ^ 63 : Int))) then .trap else
   let m := len * es
   if !inI64 m then .trap else
   let a := m + arrayHeader
